@@ -28,6 +28,29 @@ CLAIMED = {
         design_ref='3 (C01)'),
 }
 
+CLAIMED['C02'] = dict(
+    technique='bounded symbolic execution of the real estimator code + '
+              'exp-domain (linear twin) specification discharged by z3 '
+              'nlsat; inductive bookkeeping invariant on the step functions',
+    text='For arbitrary invariant states within the size bounds the solver '
+         'shows that log_z, n_eff, eta, the posterior weights and the shell '
+         'volumes computed by the real code equal the per-sample '
+         'importance-sampling estimators, and that every step keeps the '
+         'per-shell bookkeeping aligned; quantifies over all likelihood '
+         'values, counters and histories.',
+    design_ref='3 (C02), 2.3')
+CLAIMED['C03'] = dict(
+    technique='bounded symbolic execution of the real evaluate_likelihood / '
+              'add_samples / add_bound / posterior with likelihood and blobs '
+              'as uninterpreted functions of the point, every evaluation '
+              'mode enumerated',
+    text='For every evaluation mode and batch size within the bounds and '
+         'for arbitrary likelihood / blob functions the solver shows each '
+         'stored and returned row carries the likelihood and blob of its '
+         'own point, once, and that no mode raises; the inductive step '
+         'covers transfers and bound insertions.',
+    design_ref='3 (C03)')
+
 NOT_APPLICABLE = {
     'C04': 'statement about the distribution of whole-program outputs over '
            'seed ensembles; no bounded symbolic input space decides it '
